@@ -43,9 +43,21 @@ pub struct Recorder {
     pub calls: RefCell<Vec<(Vec<u8>, Vec<Vec<u8>>)>>,
 }
 
+/// The error of the user merge function (only produced by fault injection).
+#[derive(Debug)]
+pub struct MergeErr;
+impl std::fmt::Display for MergeErr {
+    fn fmt(&self, f: &mut std::fmt::Formatter<'_>) -> std::fmt::Result {
+        f.write_str("injected merge failure")
+    }
+}
+
 impl MergeFunction for Recorder {
-    type Error = std::convert::Infallible;
+    type Error = MergeErr;
     fn merge<'a>(&self, key: &[u8], values: &[Cow<'a, [u8]>]) -> Result<Cow<'a, [u8]>, Self::Error> {
+        if crate::io::on_call("merge").is_some() {
+            return Err(MergeErr);
+        }
         self.calls.borrow_mut().push((key.to_vec(), values.iter().map(|v| v.to_vec()).collect()));
         match self.mf {
             Mf::Concat => {
@@ -228,7 +240,7 @@ pub fn scn_merge(out: &mut TraceOut, r: &mut R, idx: u64, heavy: bool) {
     let res = catch_unwind(AssertUnwindSafe(|| -> Result<(), String> {
         let mut cursors = Vec::new();
         for f in &files {
-            let c = Reader::new(Cursor::new(f.as_slice())).and_then(Reader::into_cursor).map_err(|e| e.to_string())?;
+            let c = Reader::new(crate::cursor::Src::new(std::rc::Rc::new(f.clone()))).and_then(Reader::into_cursor).map_err(|e| e.to_string())?;
             cursors.push(c);
         }
         let mut builder = Merger::builder(&rec);
